@@ -56,9 +56,14 @@ def run(ctx):
         for kind in _zinc.kinds_for(version):
             _kind(ctx, entries, kind, version)
     _assembly(ctx)
+    J.dumps_call(ctx, 'C02.D6')
+    J.loads_calls(ctx, 'C02.D6')
+    _zinc.version_threading(ctx, 'C02.D4', 'jsondumper')
+    _zinc.header_version(ctx, 'C02.D6', 'jsondumper')
     # date-time payloads: the reader converts the written instant, the writer never converts (shared with C17.D2)
     from . import c17
     c17._api(ctx, ctx.model, rule='C02.D7', only=('jsonparser', 'jsondumper'))
+    c17._timezone_name(ctx, ctx.model, rule='C02.D7')
 
 
 def _type_order(ctx, entries):
@@ -481,26 +486,54 @@ def _assembly(ctx):
         dg = m.func('jsondumper', '_dump_grid_to_json')
         ret = [n for n in walk_no_nested(dg) if isinstance(n, ast.Return)]
         d = ret[0].value if ret else None
-        keys = [k.value for k in d.keys] if isinstance(d, ast.Dict) else []
-        vals = [norm(v) for v in d.values] if isinstance(d, ast.Dict) else []
+        if isinstance(d, ast.Name):
+            defs = [st for st in ast.walk(dg) if isinstance(st, ast.Assign) and norm(st.targets[0]) == d.id]
+            d = defs[0].value if len(defs) == 1 else d
         g = dg.args.args[0].arg
-        want = {'meta': 'dump_meta(%s.metadata, version=%s.version, grid=True)' % (g, g),
-                'cols': 'dump_columns(%s.column, version=%s.version)' % (g, g), 'rows': 'dump_rows(%s)' % g}
-        if dict(zip(keys, vals)) == want:
-            ctx.ob('C02.D6', 'the writer emits {meta, cols, rows} from metadata, columns and rows of the grid', True,
-                   '%s:%d' % (FD, dg.lineno))
+        if not isinstance(d, ast.Dict) or not all(isinstance(k, ast.Constant) for k in d.keys):
+            ctx.error('C02.D6', '_dump_grid_to_json does not return a dict display; cannot decide')
         else:
-            ctx.violation('C02.D6', '%s::_dump_grid_to_json' % FD, norm(d) if d is not None else '',
-                          'a dumped grid lacks meta/cols/rows or fills them from the wrong source',
-                          'grid object is %s' % dict(zip(keys, vals)), file=FD, line=dg.lineno, engine='E9')
+            want = {'meta': ('dump_meta', '%s.metadata' % g), 'cols': ('dump_columns', '%s.column' % g), 'rows': ('dump_rows', g)}
+            got = {}
+            for k, v in zip(d.keys, d.values):
+                if isinstance(v, ast.Name):
+                    defs = [st for st in ast.walk(dg) if isinstance(st, ast.Assign) and norm(st.targets[0]) == v.id]
+                    v = defs[0].value if len(defs) == 1 else v
+                got[k.value] = (norm(v.func), norm(v.args[0])) if isinstance(v, ast.Call) and v.args else (norm(v), None)
+            for k, w in want.items():
+                if got.get(k) == w:
+                    ctx.ob('C02.D6', 'the writer fills `%s` with %s(%s)' % (k, w[0], w[1]), True, '%s:%d' % (FD, dg.lineno))
+                elif k not in got:
+                    ctx.violation('C02.D6', '%s::_dump_grid_to_json' % FD, norm(d), 'a dumped grid lacks `%s`' % k,
+                                  'grid object has the keys %s' % sorted(got), file=FD, line=dg.lineno, engine='E9')
+                elif got[k][0] == w[0] and got[k][1] in [x[1] for x in want.values()]:
+                    ctx.violation('C02.D6', '%s::_dump_grid_to_json' % FD, norm(d),
+                                  '`%s` of the dumped grid is filled from %s instead of %s' % (k, got[k][1], w[1]),
+                                  'grid object key %s is %s(%s)' % (k, got[k][0], got[k][1]), file=FD, line=dg.lineno, engine='E9')
+                else:
+                    ctx.error('C02.D6', '_dump_grid_to_json: `%s` is %s(%s); not recognised, cannot decide' % (k, got[k][0], got[k][1]))
         dr = m.func('jsondumper', 'dump_row')
-        t = norm(body_wo_doc(dr)[0]) if body_wo_doc(dr) else ''
         a = [x.arg for x in dr.args.args]
-        if t == 'return dict([(c, dump_scalar(%s.get(c), version=%s.version)) for c in list(%s.column.keys())])' % (a[1], a[0], a[0]):
-            ctx.ob('C02.D6', 'every column of every row is emitted (row.get: absent -> null)', True, '%s:%d' % (FD, dr.lineno))
+        gp, rp = a[0], a[1]
+        calls = [n for n in ast.walk(dr) if isinstance(n, ast.Call) and norm(n.func) == 'dump_scalar' and n.args]
+        comps = [n for n in ast.walk(dr) if isinstance(n, (ast.ListComp, ast.DictComp, ast.GeneratorExp, ast.For))]
+        if len(calls) != 1 or len(comps) != 1:
+            ctx.error('C02.D6', 'dump_row: %d dump_scalar calls in %d loops; cannot decide' % (len(calls), len(comps)))
         else:
-            ctx.violation('C02.D6', '%s::dump_row' % FD, t, 'cells are missing from / misplaced in dumped rows',
-                          'dump_row is %s' % t, file=FD, line=dr.lineno, engine='E9')
+            comp = comps[0]
+            it = norm(comp.iter if isinstance(comp, ast.For) else comp.generators[0].iter)
+            var = norm(comp.target if isinstance(comp, ast.For) else comp.generators[0].target)
+            cell = norm(calls[0].args[0])
+            cols_ok = it in ('list(%s.column.keys())' % gp, '%s.column.keys()' % gp, '%s.column' % gp, 'list(%s.column)' % gp)
+            if cols_ok and cell == '%s.get(%s)' % (rp, var):
+                ctx.ob('C02.D6', 'every column of every row is emitted (row.get: absent -> null)', True, '%s:%d' % (FD, dr.lineno))
+            elif cols_ok and cell == '%s[%s]' % (rp, var):
+                ctx.violation('C02.D6', '%s::dump_row' % FD, norm(calls[0]),
+                              'a grid with columns a, b and the row {a: 1}: dumping raises KeyError instead of writing b as null',
+                              'dump_row reads the cell with row[col]: sparse rows cannot be dumped', file=FD,
+                              line=calls[0].lineno, engine='E9')
+            else:
+                ctx.error('C02.D6', 'dump_row iterates `%s` and writes `%s`; not recognised, cannot decide' % (it, cell))
         from .. import match
         dm = m.func('jsondumper', 'dump_meta')
         sd = match.Script(ctx, 'C02.D6', [dm], FD, '%s::dump_meta' % FD)
